@@ -17,7 +17,7 @@ Driver for the C18 correspondence check (M_io).  Reads the trace of `harness/src
 Lines:  case <name> mode=<N|u> chunk=<c> exact=<0|1> …
         call s <k> write <hex>|flush|shutdown     ret s <k> ok [<n>] | err <kind>     probe s <bw> <exp|->
         call r <k> read <n>                       ret r <k> ok <hex> | err <kind>     probe r <br> <size|->
-        pend <s|r> <k> | cancelled <s|r> <k> | drop <s|r> | cut | hang <s|r> <k> | panic … | end
+        pend <s|r> <k> | cancelled <s|r> <k> | move s | drop <s|r> | cut | hang <s|r> <k> | panic … | end
 Output: DIFF/FAIL lines and `END <case> events=<n> replay=<ok|diff> pred=<ok|fail> outcome=<…>` per case,
         `TOTAL cases=<n> diffs=<n> fails=<n>` at the end.
 -/
@@ -317,6 +317,13 @@ def stepCase (c : Case) (ws : List String) : IO Case := do
           c ← diff c s!"receiver accessors differ: model bytes_read={c.st.rx.bytesRead} size={repr msz}"
       return c
     | _, _ => diff c "unparsable probe"
+  | ["move", "s"] =>
+    -- shipping the sender with a chunk in flight loses that chunk (and the port)
+    let c := if c.inflight then { c with faulty := true, inflight := false } else c
+    if !c.inStep then return c
+    match stepOut c.cfg c.st .moveTx with
+    | some (_, s') => return { c with st := s' }
+    | none => diff c "move s not enabled"
   | ["drop", "s"] =>
     if !c.inStep then return c
     match stepOut c.cfg c.st .dropTx with
